@@ -1,6 +1,7 @@
 import RuxModel.Drv.Common
 import RuxModel.Model.Table
 import RuxModel.Model.Quick
+import RuxModel.Model.URLBuild
 /-
   driver engine `route`: registration + lookup + dispatch status of the route table model.
 
@@ -22,6 +23,8 @@ structure RouteSt where
   customNA : Bool
   tainted : Bool          -- an `unsupported` registration happened: the model no longer knows the table
   runeSens : Bool         -- some route's regex may behave differently on runes than on bytes
+  names : Names := []     -- the name index (C15)
+  routes : List RouteM := []   -- registered routes by id (for BuildURL)
 
 def RouteSt.init : RouteSt := { rt := RouterM.new {}, customNF := false, customNA := false, tainted := false, runeSens := false }
 
@@ -43,6 +46,26 @@ def paramsStr (ps : Params) : String :=
 def routeBody (id : Nat) (ps : Params) : Bytes :=
   Bytes.ofString s!"R{id}:" ++
     ((ps.foldr insertParam []).flatMap fun kv => kv.1 ++ [0x3D] ++ kv.2 ++ [0x3B])
+
+def parseKVs (s : String) : Option (List (Bytes × Bytes)) :=
+  if s = "-" then some [] else
+  (s.splitOn ",").mapM fun kv =>
+    match kv.splitOn "=" with
+    | [k, v] => match Bytes.ofHex k, Bytes.ofHex v with
+      | some k, some v => some (k, v)
+      | _, _ => none
+    | _ => none
+
+def kvStr (l : List (Bytes × Bytes)) : String :=
+  if l.isEmpty then "-" else
+  String.intercalate "," (l.map fun kv => Bytes.toHex kv.1 ++ "=" ++ Bytes.toHex kv.2)
+
+/-- query parameters as `url.Values.Encode` orders them: by key, values of one key in insertion order -/
+def insertKV (x : Bytes × Bytes) : List (Bytes × Bytes) → List (Bytes × Bytes)
+  | [] => [x]
+  | y :: t => if bytesLt x.1 y.1 then x :: y :: t else y :: insertKV x t
+
+def sortKVs (l : List (Bytes × Bytes)) : List (Bytes × Bytes) := l.foldl (fun acc x => insertKV x acc) []
 
 def tierOf (r : RouteM) : String :=
   if r.static then "S" else if r.info.first.isEmpty then "I" else "R"
@@ -102,6 +125,46 @@ def routeStep (st : RouteSt) : List String → RouteSt × String
       | .notFound =>
         if st.customNF then (st', s!"404 - {Bytes.toHex (Bytes.ofString "NF")}")
         else (st', s!"404 - {Bytes.toHex (Bytes.ofString "404 page not found\n")}")
+    | _, _ => (st, "bad-op")
+  | ["regn", id, name, ms, path, api] =>
+    if st.tainted then (st, "unsupported") else
+    match id.toNat?, Bytes.ofHex name, parseHexList ms, Bytes.ofHex path with
+    | some id, some name, some ms, some path =>
+      match register st.rt id name ms path false with
+      | .ok rt' r =>
+        let _ := api
+        ({ st with rt := rt', names := nameRoute st.names name id, routes := r :: st.routes,
+                   runeSens := st.runeSens || (!r.static && r.info.runeSens) }, s!"ok {Bytes.toHex r.path}")
+      | .reject _ => ({ st with tainted := true }, "unsupported")   -- a rejected named route may leave its name behind
+      | .unsupported => ({ st with tainted := true }, "unsupported")
+    | _, _, _, _ => (st, "bad-op")
+  | ["rename", id, name] =>
+    if st.tainted then (st, "unsupported") else
+    match id.toNat?, Bytes.ofHex name with
+    | some id, some name =>
+      if st.routes.any (fun r => r.id = id) then ({ st with names := nameRoute st.names name id }, "ok")
+      else (st, "ok")
+    | _, _ => (st, "bad-op")
+  | ["getroute", name] =>
+    if st.tainted then (st, "unsupported") else
+    match Bytes.ofHex name with
+    | some name => (st, match getRoute st.names name with | some id => toString id | none => "none")
+    | none => (st, "bad-op")
+  | ["buildq", name, args, _style, _expect] =>
+    if st.tainted then (st, "unsupported") else
+    match Bytes.ofHex name, parseKVs args with
+    | some name, some args =>
+      match getRoute st.names name with
+      | none => (st, "panic")
+      | some id =>
+        match st.routes.find? (fun r => r.id = id) with
+        | none => (st, "bad-op")
+        | some r =>
+          let (params, queries) := splitArgs args
+          let path := buildPath r.path params
+          if st.skip path then ({ st with tainted := st.tainted || st.rt.opts.caching }, "unsupported") else
+          let (res, rt') := quickMatch st.rt methodGET path
+          ({ st with rt := rt' }, s!"{Bytes.toHex path} {kvStr (sortKVs queries)} {matchObs res}")
     | _, _ => (st, "bad-op")
   | ["ckeys"] =>
     if st.tainted then (st, "unsupported") else
